@@ -673,6 +673,85 @@ def twin_check(case):
     return bad
 
 
+# ---------------------------------------------------------------------------------------------
+# per-axis subsampling factors (D181): `subsamping` given as an array / list, documented for every detector class
+
+def brute_bins(p, dims, ss):
+    """sum-binning with one factor per axis; p flat (x fastest), dims and ss in (x, y, ..) order"""
+    nd = len(dims)
+    out = [Fraction(0)] * int(np.prod(dims))
+    fine = [d * f for d, f in zip(dims, ss)]
+    for idx in itertools.product(*[range(f) for f in fine[::-1]]):      # slowest first
+        flat = 0
+        cflat = 0
+        for k, i in enumerate(idx):
+            flat = flat * fine[nd - 1 - k] + i
+            cflat = cflat * dims[nd - 1 - k] + i // ss[nd - 1 - k]
+        out[cflat] += p[flat]
+    return out
+
+
+def gen_per_axis(rng, big):
+    ndim = 1 if rng.random() < 0.15 else 2
+    dims = [int(rng.integers(1, 4 if not big else 5)) for _ in range(ndim)]
+    ss = [int(rng.integers(1, 4)) for _ in range(ndim)]
+    nfine = int(np.prod([d * f for d, f in zip(dims, ss)]))
+    nint = int(rng.integers(1, 4))
+    return {'fam': 'per-axis', 'dims': dims, 'ss': ss, 'delta': [float(rng.choice([0.5, 1.0, 2.0])) for _ in range(ndim)],
+            'cls': str(rng.choice(['noiseless', 'noisy-off'])), 'spell': str(rng.choice(['array', 'array', 'list', 'float-array'])),
+            'input': str(rng.choice(['field', 'plain'])),
+            'ints': [[[dyadic(rng, 0, 16, 3) for _ in range(nfine)], dyadic(rng, 0.25, 4, 2), float(rng.choice([1.0, 0.5, 2.0]))] for _ in range(nint)]}
+
+
+def run_per_axis(case):
+    """returns (bad, model lines, comparisons)"""
+    import hcipy
+    bad, lines, cmps = [], [], []
+    dims, ss = case['dims'], case['ss']
+    grid = hcipy.make_uniform_grid(dims, [d * n for d, n in zip(case['delta'], dims)])
+    arg = {'array': lambda: np.array(ss), 'list': lambda: list(ss), 'float-array': lambda: np.array(ss, dtype=float)}[case['spell']]()
+    try:
+        if case['cls'] == 'noiseless':
+            det = hcipy.NoiselessDetector(grid, arg)
+        else:
+            np.random.seed(12345)
+            det = hcipy.NoisyDetector(grid, dark_current_rate=0, read_noise=0, flat_field=0, include_photon_noise=False, subsampling=arg)
+    except Exception as e:  # noqa
+        bad.append(('per-axis-subsampling-raises', '%s(grid %r, subsampling=%r (%s)) raised %s: %s (the docstring promises "if this is an array, the '
+                    'subsampling factor will be different for each dimension")' % (case['cls'], dims, ss, case['spell'], type(e).__name__, str(e)[:80])))
+        return bad, lines, cmps
+    fine = [d * f for d, f in zip(dims, ss)]
+    if [int(d) for d in det.input_grid.dims] != fine:
+        bad.append(('per-axis-input-grid', 'input grid has dims %r, expected %r' % ([int(d) for d in det.input_grid.dims], fine)))
+        return bad, lines, cmps
+    npix = int(np.prod(dims))
+    want = [Fraction(0)] * npix
+    try:
+        for vals, dt, w in case['ints']:
+            a = np.array(vals, dtype=float)
+            det.integrate(hcipy.Field(a, det.input_grid) if case['input'] == 'field' else a, dt, w)
+            b = brute_bins([fr(x) for x in vals], dims, ss)
+            want = [x + y * fr(dt) * fr(w) for x, y in zip(want, b)]
+        im = det.read_out()
+        singles = [det(hcipy.Field(np.array(vals, dtype=float), det.input_grid), 1.0, 1.0) for vals, _, _ in case['ints']]
+        empty = det.read_out()
+    except Exception as e:  # noqa
+        bad.append(('per-axis-subsampling-raises', 'a history on a %s detector with subsampling %r raised %s: %s' % (case['cls'], ss, type(e).__name__, str(e)[:100])))
+        return bad, lines, cmps
+    for name, img, ref in [('read-out', im, want), ('read-out with nothing integrated', empty, [Fraction(0)] * npix)]:
+        arr = np.asarray(img, dtype=float)
+        gr = getattr(img, 'grid', None)
+        if arr.shape != (npix,) or gr is None or not (gr is grid or gr == grid):
+            bad.append(('readout-grid', '%s of a detector with subsampling %r has shape %r / does not live on the detector grid' % (name, ss, arr.shape)))
+        elif max([abs(float(x) - float(y)) for x, y in zip(arr, ref)] + [0.0]) > TOL * max([1.0] + [abs(float(y)) for y in ref]):
+            bad.append(('readout-value', '%s of a detector with per-axis subsampling %r differs from the sum of power*dt*weight over the %r boxes' % (name, ss, ss)))
+    rs, rd = '[' + ','.join(str(f) for f in ss[::-1]) + ']', '[' + ','.join(str(d) for d in dims[::-1]) + ']'
+    for (vals, _, _), img in zip(case['ints'], singles):
+        lines.append('C18 bins sum %s %s %s' % (rs, rd, rat_list(vals)))
+        cmps.append([float(x) for x in np.asarray(img, dtype=float).ravel()])
+    return bad, lines, cmps
+
+
 def all_bad(obs):
     return [b for o in obs for b in o['bad']]
 
@@ -821,12 +900,39 @@ def run(ctx):
     lines, index = [], []
     for case in cases:
         check_case(ctx, case, lines, index)
+    pa = []
+    for k in range(ctx.scale(200, 2000)):
+        case = gen_per_axis(ctx.rng, big=(ctx.tier == 'thorough' and k % 4 == 0))
+        bad, plines, cmps = run_per_axis(case)
+        for key, what in bad:
+            ctx.violation(key, what, case)
+        ctx.count('per-axis:%s' % case['cls'])
+        ctx.count('per-axis:spelling:' + case['spell'])
+        ctx.count('per-axis:' + ('different-factors' if len(set(case['ss'])) > 1 else 'equal-factors'))
+        ctx.case(None, nontrivial_key=('per-axis', tuple(case['dims']), tuple(case['ss']), case['cls'], len(case['ints'])))
+        if not bad:
+            pa.append((case, len(lines), cmps))
+            lines += plines
     out = ctx.model(lines)
     for case, obs, base in index:
         compare_model(ctx, out, case, obs, base)
+    for case, base, cmps in pa:
+        # the images of single integrations (dt = weight = 1) against the per-axis binning model `binNDs` (C18 op `bins`)
+        for k, got in enumerate(cmps):
+            ctx.traces_validated += 1
+            resp = out[base + k]
+            m = parse_rat_list(resp[3:]) if resp.startswith('ok [') else None
+            if m is None or len(m) != len(got) or any(abs(float(a) - b) > TOL * max(1.0, abs(float(a))) for a, b in zip(m, got)):
+                ctx.disagree('C17 per-axis bins', {'case': case, 'model': resp, 'impl': got})
+                break
 
 
 def replay(ctx, case):
+    if case.get('fam') == 'per-axis':
+        bad = run_per_axis(case)[0]
+        for key, what in bad:
+            print('  fails:', key, '-', what)
+        return not bad
     obs, _ = run_real(case)
     bad = all_bad(obs)
     if not bad:
